@@ -4,10 +4,26 @@ LEVELS = {
     'C03': 'proof',
     'C04': 'proof',
     'C20': 'proof',
+    'C02': 'proof',
+    'C05': 'proof',
 }
 EXPLAIN = {}
 NOT_CLAIMED = {}
 CLAIMS = {
+    'C02': dict(
+        engine='symnp (E2)',
+        design_ref='DESIGN.md §6 C02',
+        technique='contract-based deductive verification: an uninterpreted row-wise transform applied to every shape class through the real apply/_transform/copy code; callee contract (row-wise, pure) verified per concrete transform class',
+        text='For all 8 shape classes, 2-D/3-D, 0-2 landmark groups of rotating classes and nested landmark groups: result class, moved points, every landmark group moved by the same map, all other attributes carried over, input/transform unchanged, array call agrees, batching irrelevant - proved for all coordinate values with an opaque row-wise transform. The row-wise/purity contract is proved for the 12 homogeneous classes, chains, WithDims (2-D/3-D), TPS, PWA and both RBF kernels.',
+        note='Shapes have 3-4 points and fixed small connectivity (values universal, sizes bounded); TPS coefficients via callee contract; reals for floats.',
+    ),
+    'C05': dict(
+        engine='symnp (E2)',
+        design_ref='DESIGN.md §6 C05',
+        technique='contract-based deductive verification: sidecar contracts on as_vector/from_vector of the real classes over symbolic state; dtype behaviour by a bounded run-time contract',
+        text='as_vector read-only/size/non-mutating, full-state round trip, from_vector(w).as_vector()==w and receiver untouched proved for all 8 shape classes (2-D/3-D, with landmarks), Image/MaskedImage (all 63 non-empty masks of a 2x3 image, 2 channels, 3-D) and every vectorisable homogeneous class incl. alignment target re-sync; BooleanImage exhaustively; every wrong length raises or yields a well-formed object. Mirrored 2-D similarities are a recorded known finding. dtype personas (uint8/float32/float64 images x float vectors) are a bounded stand-in.',
+        note='Object persona hides dtypes (bounded contract covers them, not counted as proved); rotation as_vector round trip (eigh) is the bounded contract in C20; sizes bounded, values universal.',
+    ),
     'C20': dict(
         engine='symnp (E2)',
         design_ref='DESIGN.md §6 C20',
